@@ -220,7 +220,7 @@ func (s *memoryStore) RemoveNode(nodeID store.NodeID) error {
 // empty list, if none are available.
 func (s *memoryStore) ActiveHosts(kind string, limit int) ([]store.Node, error) {
 	seenSince := time.Now().Add(-store.ExpireInterval)
-	r := make([]store.Node, 0, limit)
+	r := []store.Node{} // Not pre-sized: limit comes straight from a peer request.
 
 	s.mu.Lock()
 	defer s.mu.Unlock()
